@@ -130,18 +130,47 @@ theorem mkOp_spec (o : Op) (l r e : Expr) (hl : WF l) (hr : WF r) (h4 : o.type =
     simp only [Bool.and_eq_true, decide_eq_true_eq, bne_iff_ne, ne_eq, not_and, Decidable.not_not] at hc
     cases h
     simp only [WF, size_op, resSize]
+    have hprop : o.type ≤ o.type ||| l.propOf ||| r.propOf := by
+      exact Nat.le_trans Nat.left_le_or Nat.left_le_or
     rcases type_cases o with ht | ht | ht | ht
     · have := hc (by omega)
+      rw [ht] at hprop
       simp only [ht]
       by_cases hm : o = Op.mul2
       · subst hm; simp [hl, hr, this]; omega
       · simp [hm, hl, hr, this]; omega
     · have := hc (by omega)
       have hne : o ≠ Op.mul2 := by intro h; subst h; simp [Op.type] at ht
+      rw [ht] at hprop
       simp [ht, hne, hl, hr, this]; omega
-    · simp [ht, hl, hr, h4 ht]
+    · rw [ht] at hprop
+      simp [ht, hl, hr, h4 ht, hprop]
     · have hne : o ≠ Op.mul2 := by intro h; subst h; simp [Op.type] at ht
-      simp [ht, hne, hl, hr, hpos]
+      rw [ht] at hprop
+      simp [ht, hne, hl, hr, hpos, hprop]
+
+/-- what `WF` says about an operator node, in terms of `resSize` -/
+theorem WF_op_iff (o : Op) (l r : Expr) (s : Nat) (f : Bool) (p : Nat) :
+    WF (op o l r s f p) ↔ (0 < s ∧ o.type ≤ p ∧ WF l ∧ WF r ∧ s = resSize o l ∧ (o.type ≠ 8 → l.size = r.size)) := by
+  simp only [WF, resSize]
+  rcases type_cases o with ht | ht | ht | ht
+  · simp only [ht]; constructor
+    · rintro ⟨a, b, c, d, e, g⟩; exact ⟨a, b, c, d, by simpa using g, fun _ => e⟩
+    · rintro ⟨a, b, c, d, e, g⟩; exact ⟨a, b, c, d, g (by omega), by simpa using e⟩
+  · have hne : o ≠ Op.mul2 := by intro h; subst h; simp [Op.type] at ht
+    simp only [ht, hne]; constructor
+    · rintro ⟨a, b, c, d, e, g⟩; exact ⟨a, b, c, d, by simpa using g, fun _ => e⟩
+    · rintro ⟨a, b, c, d, e, g⟩; exact ⟨a, b, c, d, g (by omega), by simpa using e⟩
+  · simp only [ht]; constructor
+    · rintro ⟨a, b, c, d, e, g⟩; exact ⟨a, b, c, d, by simpa using e, fun _ => g⟩
+    · rintro ⟨a, b, c, d, e, g⟩; exact ⟨a, b, c, d, by simpa using e, g (by omega)⟩
+  · have hne : o ≠ Op.mul2 := by intro h; subst h; simp [Op.type] at ht
+    simp only [ht, hne]; constructor
+    · rintro ⟨a, b, c, d, e⟩; exact ⟨a, b, c, d, by simpa using e, fun h => absurd rfl h⟩
+    · rintro ⟨a, b, c, d, e, _⟩; exact ⟨a, b, c, d, by simpa using e⟩
+
+theorem resSize_congr (o : Op) {l l' : Expr} (h : l'.size = l.size) : resSize o l' = resSize o l := by
+  unfold resSize; rw [h]
 
 theorem WF_mkCst' (x : Int) (s : Nat) (hs : 0 < s) : WF (mkCst x s) := WF_mkCst x s hs
 
@@ -169,6 +198,10 @@ structure WidthIH (cfg : Cfg) (fuel : Nat) : Prop where
   eqn2 : ∀ opts o l r size sf prop, WF (.op o l r size sf prop) → Post size (eqn2 cfg fuel opts o l r size sf prop)
   eqn2norm : ∀ o l r size sf prop, WF (.op o l r size sf prop) →
       ∀ o' l' r', eqn2norm cfg fuel o l r = .ok (o', l', r') → WF (.op o' l' r' size sf prop)
+  normL : ∀ o l r size sf prop, WF (.op o l r size sf prop) →
+      ∀ t, normL cfg fuel o l r = .ok t → WF (.op t.1 t.2.1 t.2.2 size sf prop)
+  normR : ∀ o l r size sf prop, WF (.op o l r size sf prop) →
+      ∀ t, normR cfg fuel o l r = .ok t → WF (.op t.1 t.2.1 t.2.2 size sf prop)
   eqn2cst : ∀ opts o l rv rs rf size sf prop, WF (.op o l (.cst rv rs rf) size sf prop) →
       ∀ res, eqn2cst cfg fuel opts o l rv rs rf size sf = .ok (some res) → WF res ∧ res.size = size
   eqn2snd : ∀ opts o l rv rs rf size sf prop, WF (.op o l (.cst rv rs rf) size sf prop) →
@@ -211,6 +244,218 @@ theorem size_clearLeftSf (e : Expr) : (clearLeftSf e).size = e.size := by
   unfold clearLeftSf
   split <;> rfl
 
+theorem foldl_add_size (l : List Expr) (k : Nat) : l.foldl (fun a x => a + x.size) k = k + l.foldl (fun a x => a + x.size) 0 := by
+  induction l generalizing k with
+  | nil => simp
+  | cons x tl ih => simp only [List.foldl_cons, Nat.zero_add]; rw [ih (k + x.size), ih x.size]; omega
+
+theorem pm_types {o ro x : Op} (h : Op.pm o ro = some x) :
+    o.type = 1 ∧ ro.type = 1 ∧ x.type = 1 ∧ o ≠ Op.mul2 ∧ ro ≠ Op.mul2 ∧ x ≠ Op.mul2 := by
+  cases o <;> cases ro <;> simp [Op.pm] at h <;> subst h <;> simp [Op.type]
+
+theorem resSize_type1 {o : Op} (l : Expr) (h1 : o.type = 1) (h2 : o ≠ Op.mul2) : resSize o l = l.size := by
+  simp [resSize, h1, h2]
+
+theorem tiles_exists {n : Nat} {ps : List Part} (ht : Tiles n ps) (x : Nat) :
+    (∃ p ∈ ps, p.1 ≤ x ∧ x < p.2.1) ↔ x < n := by
+  constructor
+  · rintro ⟨p, hp, h1, h2⟩
+    have := ht.1 p hp
+    omega
+  · intro hx
+    have hcnt := ht.2 x hx
+    have hsome := cover_isSome_of_cnt (b := x) (ps := ps) (by show 1 ≤ cnt _ _; change cnt _ _ = 1 at hcnt; omega)
+    cases hcv : cover x ps with
+    | none => rw [hcv] at hsome; cases hsome
+    | some p =>
+      obtain ⟨hm, h1, h2⟩ := cover_spec hcv
+      exact ⟨p, hm, h1, h2⟩
+
+/-- simplifying / evaluating every part of a comp keeps the keys: coverage and sizes are unchanged -/
+theorem mapM_parts_spec (f : Expr → R Expr) (hf : ∀ e r, WF e → f e = .ok r → WF r ∧ r.size = e.size) :
+    ∀ (ps ps' : List Part), (∀ p ∈ ps, WF p.2.2) →
+      ps.mapM (fun (p : Part) => do let v ← f p.2.2; pure ((p.1, p.2.1, v) : Part)) = .ok ps' →
+      (∀ p ∈ ps', WF p.2.2) ∧ (∀ n, Sized n ps → Sized n ps') ∧ ∀ b, cnt b ps' = cnt b ps := by
+  intro ps
+  induction ps with
+  | nil =>
+    intro ps' _ h
+    simp only [List.mapM_nil, pure, Except.pure] at h
+    cases h
+    exact ⟨by intro p hp; cases hp, fun _ h => h, fun _ => rfl⟩
+  | cons q tl ih =>
+    intro ps' hw h
+    rw [List.mapM_cons] at h
+    cases hq : f q.2.2 with
+    | error e => rw [hq] at h; cases h
+    | ok v =>
+      rw [hq] at h
+      simp only [bind, Except.bind, pure, Except.pure] at h
+      cases ht : List.mapM (fun (p : Part) => do let v ← f p.2.2; pure ((p.1, p.2.1, v) : Part)) tl with
+      | error e =>
+        simp only [bind, Except.bind, pure, Except.pure] at ht
+        rw [ht] at h; cases h
+      | ok tl' =>
+        simp only [bind, Except.bind, pure, Except.pure] at ht
+        rw [ht] at h
+        cases h
+        obtain ⟨h1, h2, h3⟩ := ih tl' (fun p hp => hw p (List.mem_cons_of_mem _ hp)) (by simpa [bind, Except.bind, pure, Except.pure] using ht)
+        have hv := hf q.2.2 v (hw q List.mem_cons_self) hq
+        refine ⟨?_, ?_, ?_⟩
+        · intro p hp
+          rcases List.mem_cons.mp hp with rfl | hp
+          · exact hv.1
+          · exact h1 p hp
+        · intro n hs p hp
+          rcases List.mem_cons.mp hp with rfl | hp
+          · have := hs q List.mem_cons_self
+            exact ⟨this.1, this.2.1, by simp only; rw [hv.2]; exact this.2.2⟩
+          · exact h2 n (fun p hp => hs p (List.mem_cons_of_mem _ hp)) p hp
+        · intro b
+          rw [cnt_cons, cnt_cons, h3 b]
+
+theorem vecFlat_spec (f : Expr → R Expr) (s : Nat) (hf : ∀ e r, WF e → f e = .ok r → WF r ∧ r.size = e.size) :
+    ∀ (l acc : List Expr) (early : Option Expr) (acc' : List Expr),
+      (∀ x ∈ l, WF x ∧ x.size = s) → (∀ x ∈ acc, WF x ∧ x.size = s) →
+      vecFlat f l acc = .ok (early, acc') →
+      (∀ ee, early = some ee → WF ee ∧ ee.size = s) ∧
+      (early = none → (∀ x ∈ acc', WF x ∧ x.size = s) ∧ ((acc ≠ [] ∨ l ≠ []) → acc' ≠ [])) := by
+  intro l
+  induction l with
+  | nil =>
+    intro acc early acc' _ ha h
+    simp only [vecFlat] at h
+    cases h
+    exact ⟨by intro ee h; cases h, fun _ => ⟨ha, by intro h; rcases h with h | h; exact h; exact absurd rfl h⟩⟩
+  | cons x tl ih =>
+    intro acc early acc' hl ha h
+    simp only [vecFlat] at h
+    cases hx : f x with
+    | error e => rw [hx] at h; cases h
+    | ok ee =>
+      rw [hx] at h
+      simp only [bind, Except.bind] at h
+      have hee := hf x ee (hl x List.mem_cons_self).1 hx
+      have hees : ee.size = s := by rw [hee.2]; exact (hl x List.mem_cons_self).2
+      have htl : ∀ y ∈ tl, WF y ∧ y.size = s := fun y hy => hl y (List.mem_cons_of_mem _ hy)
+      split at h
+      · simp only [pure, Except.pure] at h
+        cases h
+        exact ⟨by intro e' h'; cases h'; exact ⟨hee.1, hees⟩, by intro h'; cases h'⟩
+      · split at h
+        · rename_i l' s' f'
+          have hw := hee.1
+          simp only [WF] at hw
+          simp only [size_vec] at hees
+          subst hees
+          have hacc : ∀ y ∈ acc ++ l', WF y ∧ y.size = s' := by
+            intro y hy
+            rcases List.mem_append.mp hy with hy | hy
+            · exact ha y hy
+            · exact (WFList_iff l' s').mp hw.2.2 y hy
+          obtain ⟨r1, r2⟩ := ih (acc ++ l') early acc' htl hacc h
+          refine ⟨r1, fun hn => ⟨(r2 hn).1, fun _ => (r2 hn).2 (Or.inl ?_)⟩⟩
+          intro hnil
+          exact hw.2.1 (List.append_eq_nil_iff.mp hnil).2
+        · have hacc : ∀ y ∈ acc ++ [ee], WF y ∧ y.size = s := by
+            intro y hy
+            rcases List.mem_append.mp hy with hy | hy
+            · exact ha y hy
+            · simp only [List.mem_singleton] at hy; subst hy; exact ⟨hee.1, hees⟩
+          obtain ⟨r1, r2⟩ := ih (acc ++ [ee]) early acc' htl hacc h
+          refine ⟨r1, fun hn => ⟨(r2 hn).1, fun _ => (r2 hn).2 (Or.inl ?_)⟩⟩
+          intro hnil
+          have := (List.append_eq_nil_iff.mp hnil).2
+          cases this
+
+theorem vecIn_total (eq : Expr → Expr → R Expr) (e : Expr) (l : List Expr) : True := trivial
+
+theorem vecDedup_spec (eq : Expr → Expr → R Expr) (P : Expr → Prop) :
+    ∀ (l acc acc' : List Expr), (∀ x ∈ l, P x) → (∀ x ∈ acc, P x) → vecDedup eq l acc = .ok acc' →
+      (∀ x ∈ acc', P x) ∧ ((acc ≠ [] ∨ l ≠ []) → acc' ≠ []) := by
+  intro l
+  induction l with
+  | nil =>
+    intro acc acc' _ ha h
+    simp only [vecDedup] at h
+    cases h
+    exact ⟨ha, by intro h; rcases h with h | h; exact h; exact absurd rfl h⟩
+  | cons x tl ih =>
+    intro acc acc' hl ha h
+    simp only [vecDedup] at h
+    cases hin : vecIn eq x acc with
+    | error e => rw [hin] at h; cases h
+    | ok b =>
+      rw [hin] at h
+      simp only [bind, Except.bind] at h
+      have htl : ∀ y ∈ tl, P y := fun y hy => hl y (List.mem_cons_of_mem _ hy)
+      cases b with
+      | true =>
+        simp only [if_true] at h
+        obtain ⟨r1, r2⟩ := ih acc acc' htl ha h
+        refine ⟨r1, fun _ => r2 (Or.inl ?_)⟩
+        -- `x in acc` can only be true for a non-empty `acc`
+        intro hnil
+        subst hnil
+        simp [vecIn] at hin
+      | false =>
+        simp only [Bool.false_eq_true, if_false] at h
+        have hacc : ∀ y ∈ acc ++ [x], P y := by
+          intro y hy
+          rcases List.mem_append.mp hy with hy | hy
+          · exact ha y hy
+          · simp only [List.mem_singleton] at hy; subst hy; exact hl _ List.mem_cons_self
+        obtain ⟨r1, r2⟩ := ih (acc ++ [x]) acc' htl hacc h
+        refine ⟨r1, fun _ => r2 (Or.inl ?_)⟩
+        intro hnil
+        have := (List.append_eq_nil_iff.mp hnil).2
+        cases this
+
+/-- postcondition for the rule chains that may decline (`none`) -/
+def PostO (s : Nat) (r : R (Option Expr)) : Prop := ∀ e, r = .ok (some e) → WF e ∧ e.size = s
+
+theorem PostO_error (s : Nat) (k : Err) : PostO s (.error k) := by intro e h; cases h
+theorem PostO_none (s : Nat) : PostO s (pure none) := by intro e h; cases h
+theorem PostO_some {s : Nat} {e : Expr} (h1 : WF e) (h2 : e.size = s) : PostO s (pure (some e)) := by
+  intro e' h; cases h; exact ⟨h1, h2⟩
+theorem PostO_bind {α : Type} {s : Nat} (x : R α) (f : α → R (Option Expr)) (h : ∀ a, x = .ok a → PostO s (f a)) :
+    PostO s (x >>= f) := by
+  intro e he
+  cases x with
+  | error k => cases he
+  | ok a => exact h a rfl e he
+
+theorem length_pyRange (a b : Int) : (pyRange a b).length = (b - a).toNat := by simp [pyRange]
+
+theorem foldl_size_ones (l : List Expr) (h : ∀ x ∈ l, x.size = 1) : l.foldl (fun a x => a + x.size) 0 = l.length := by
+  induction l with
+  | nil => rfl
+  | cons x tl ih =>
+    simp only [List.foldl_cons, Nat.zero_add, List.length_cons]
+    rw [foldl_add_size, h x List.mem_cons_self, ih (fun y hy => h y (List.mem_cons_of_mem _ hy))]
+    omega
+
+theorem WF_setSf_if (c : Expr) (sf : Bool) (h : WF c) : WF (if c.isCmp = true then c.setSf sf else c) := by
+  split
+  · exact (WF_setSf _ _).mpr h
+  · exact h
+
+theorem size_setSf_if (c : Expr) (sf : Bool) : (if c.isCmp = true then c.setSf sf else c).size = c.size := by
+  split <;> simp
+
+theorem Disj_nil (n : Nat) : Disj n [] :=
+  ⟨(by intro p hp; cases hp), (by intro b; simp)⟩
+
+theorem checkSlice_ok {n : Nat} {a b : Int} (h : checkSlice n a b = .ok ()) : 0 ≤ a ∧ a < b ∧ b ≤ n := by
+  unfold checkSlice at h
+  split at h
+  · cases h
+  · split at h
+    · cases h
+    · rename_i h1 h2
+      simp only [Bool.or_eq_true, decide_eq_true_eq, not_or, not_lt, not_le] at h1 h2
+      omega
+
 variable (cfg : Cfg)
 
 theorem widthIH_zero : WidthIH cfg 0 := by
@@ -221,6 +466,8 @@ theorem widthIH_zero : WidthIH cfg 0 := by
     | (rw [eqn1.eq_def]; exact Post_error _ _)
     | (rw [eqn2.eq_def]; exact Post_error _ _)
     | (rename_i h; rw [eqn2norm.eq_def] at h; cases h)
+    | (rename_i h; rw [normL.eq_def] at h; cases h)
+    | (rename_i h; rw [normR.eq_def] at h; cases h)
     | (rename_i h; rw [eqn2cst.eq_def] at h; cases h)
     | (rw [eqn2snd.eq_def]; exact Post_error _ _)
     | (rw [eqn2tail.eq_def]; exact Post_error _ _)
@@ -405,6 +652,929 @@ theorem callOp_step (o : Op) (l r : Expr) (hl : WF l) (hr : WF r) (h4 : o.type =
   · have := ih.api o _ _ hl' hr' (by intro h; rw [sl, sr]; exact h4 h)
     rw [rsz] at this
     exact this
+
+theorem giSpec_of_ih : GiSpec (fun y a b => getitem cfg fuel y (a : Int) (b : Int)) := by
+  intro x a b r hx hab hb h
+  have := ih.getitem x a b hx r h
+  refine ⟨this.1, ?_⟩
+  rw [this.2]; omega
+
+theorem siSpec_of_ih : SiSpec (fun c a b v => setitem cfg fuel c (a : Int) (b : Int) v) := by
+  intro n sf ps a b v r hd hw hv h
+  obtain ⟨ps', h1, h2, h3, h4, h5, h6, h7⟩ := ih.setitem n sf ps a b v r hd hw hv h
+  refine ⟨ps', h1, h2, h3, by omega, by omega, ?_⟩
+  intro x
+  rw [h7 x]
+  split_ifs <;> omega
+
+theorem mkSlc_step (x : Expr) (pos size : Nat) (hx : WF x) (hs : 0 < size) (hp : pos + size ≤ x.size) :
+    Post size (mkSlc cfg (fuel + 1) x pos size) := by
+  rw [mkSlc.eq_def]; dsimp only
+  split
+  · apply Post_bind; intro res hres
+    have := ih.getitem _ _ _ hx res hres
+    have hsz : res.size = size := by rw [this.2]; omega
+    split
+    · rename_i x2 p2 s2 f2 r2 k2
+      have hw := this.1
+      simp only [WF] at hw
+      simp only [size_slc] at hsz
+      subst hsz
+      exact Post_pure (by simp only [WF]; exact hw) rfl
+    · exact Post_error _ _
+  · exact Post_ok (by simp only [WF]; exact ⟨hx, hs, hp⟩) rfl
+
+theorem slicer_step (x : Expr) (pos size : Nat) (hx : WF x) (hs : 0 < size) (hp : pos + size ≤ x.size) :
+    Post size (slicer cfg (fuel + 1) x pos size) := by
+  rw [slicer.eq_def]; dsimp only
+  split
+  · exact Post_ok (WF_mkTop hs) rfl
+  · split
+    · rename_i h
+      simp only [Bool.and_eq_true, beq_iff_eq] at h
+      exact Post_ok hx h.2.symm
+    · split
+      · apply Post_bind; intro res hres
+        have := ih.getitem _ _ _ hx res hres
+        exact Post_pure ((WF_setSf _ _).mpr this.1) (by rw [size_setSf, this.2]; omega)
+      · exact ih.mkSlc x pos size hx hs hp
+
+theorem getitem_step (x : Expr) (a b : Int) (hx : WF x) : Post (b - a).toNat (getitem cfg (fuel + 1) x a b) := by
+  rw [getitem.eq_def]; dsimp only
+  apply Post_bind; intro u hu
+  obtain ⟨h0, hab, hbn⟩ := checkSlice_ok hu
+  have e : (b - a).toNat = b.toNat - a.toNat := by omega
+  rw [e]
+  have hpos : 0 < b.toNat - a.toNat := by omega
+  split
+  · -- cst
+    exact Post_pure (WF_mkCst _ _ hpos) rfl
+  · -- comp
+    rename_i size sf parts
+    simp only [WF] at hx
+    obtain ⟨hsz, ht, hwp⟩ := hx
+    have hwp' := (WFParts_iff parts).mp hwp
+    simp only [size_comp] at hbn
+    split
+    · rename_i p hf
+      have hm := findKey_some_mem hf
+      have := ht.1 _ hm
+      exact Post_pure (hwp' _ hm) (by simpa using this.2.2)
+    · split
+      · rename_i h
+        simp only [Bool.and_eq_true, beq_iff_eq] at h
+        exact Post_pure (by simp only [WF]; exact ⟨hsz, ht, hwp⟩) (by simp only [size_comp]; omega)
+      · apply Post_bind; intro res hres
+        have hd0 : Disj (b.toNat - a.toNat) [] := Disj_nil _
+        have := compGetLoop_spec _ _ (giSpec_of_ih ih) (siSpec_of_ih ih) size parts ht hwp'
+          b.toNat (b.toNat - a.toNat) a.toNat (by omega) (by omega) sf (b.toNat - a.toNat) 0 [] res
+          (by omega) (by omega) hd0 (by intro p hp; cases hp) (by intro x; simp [cnt]) (by simpa using hres)
+        obtain ⟨rps, rfl, htl, hwr⟩ := this
+        simp only
+        obtain ⟨r1, r2, r3⟩ := restruct_spec _ rps htl.disj hwr
+        have htr : Tiles (b.toNat - a.toNat) (restruct rps) :=
+          tiles_of_disj_cnt r1 (fun x hx => by rw [r3 x]; exact htl.2 x hx)
+        split
+        · exact Post_error _ _
+        · rename_i lo hi p heq
+          rw [heq] at htr r2
+          exact Post_pure (r2 _ List.mem_cons_self) (Tiles.single hpos htr)
+        · exact Post_pure (by simp only [WF]; exact ⟨hpos, htr, (WFParts_iff _).mpr r2⟩) rfl
+  · -- slc
+    rename_i x' p s f r k
+    simp only [WF] at hx
+    simp only [size_slc] at hbn
+    split
+    · rename_i h
+      simp only [Bool.and_eq_true, beq_iff_eq] at h
+      exact Post_pure (by simp only [WF]; exact hx) (by simp only [size_slc]; omega)
+    · exact ih.slicer x' _ _ hx.1 hpos (by omega)
+  · exact Post_error _ _
+  · -- vec
+    rename_i l s f
+    simp only [WF] at hx
+    simp only [size_vec] at hbn
+    apply Post_bind; intro l' hl'
+    have := mapM_spec (fun y => getitem cfg fuel y a b) (fun y => WF y) (fun y => WF y ∧ y.size = b.toNat - a.toNat)
+      (by intro y r hy h; have := ih.getitem y a b hy r h; exact ⟨this.1, by rw [this.2]; omega⟩)
+      l l' (fun y hy => ((WFList_iff l s).mp hx.2.2 y hy).1) hl'
+    intro v hv
+    exact mkVec_spec l' _ v hpos (by intro h; have := this.2; rw [h] at this; exact hx.2.1 (List.length_eq_zero_iff.mp this.symm)) this.1 hv
+  · -- vecw
+    rename_i l s f
+    simp only [WF] at hx
+    simp only [size_vecw] at hbn
+    apply Post_bind; intro l' hl'
+    have := mapM_spec (fun y => getitem cfg fuel y a b) (fun y => WF y) (fun y => WF y ∧ y.size = b.toNat - a.toNat)
+      (by intro y r hy h; have := ih.getitem y a b hy r h; exact ⟨this.1, by rw [this.2]; omega⟩)
+      l l' (fun y hy => ((WFList_iff l s).mp hx.2.2 y hy).1) hl'
+    apply Post_bind; intro v hv
+    have hvs := mkVec_spec l' _ v hpos (by intro h; have := this.2; rw [h] at this; exact hx.2.1 (List.length_eq_zero_iff.mp this.symm)) this.1 hv
+    split
+    · rename_i l'' s'' f''
+      have hw := hvs.1
+      simp only [WF] at hw
+      exact Post_pure (by simp only [WF]; exact hw) (by simpa using hvs.2)
+    · exact Post_error _ _
+  · -- everything else: slicer
+    exact ih.slicer x _ _ hx hpos (by omega)
+
+/-- flattening a comp `v` into `c[sta:…]`: the fold of `comp.__setitem__` over `v.parts`. -/
+theorem setitem_fold (n : Nat) (sf : Bool) (sta : Nat) :
+    ∀ (L : List Part) (ps : List Part) (r : Expr), Disj n ps → (∀ p ∈ ps, WF p.2.2) → (∀ p ∈ L, WF p.2.2) →
+      L.foldlM (fun (c : Expr) (p : Part) => setitem cfg fuel c ((sta + p.1 : Nat) : Int) ((sta + p.2.1 : Nat) : Int) p.2.2)
+        (Expr.comp n sf ps) = .ok r →
+      ∃ ps', r = .comp n sf ps' ∧ Disj n ps' ∧ (∀ p ∈ ps', WF p.2.2) ∧
+        ∀ x, cnt x ps' = if (∃ p ∈ L, sta + p.1 ≤ x ∧ x < sta + p.2.1) then 1 else cnt x ps := by
+  intro L
+  induction L with
+  | nil =>
+    intro ps r hd hw _ h
+    simp only [List.foldlM_nil, pure, Except.pure] at h
+    cases h
+    exact ⟨ps, rfl, hd, hw, by intro x; simp⟩
+  | cons q tl ihl =>
+    intro ps r hd hw hL h
+    rw [List.foldlM_cons] at h
+    cases h1 : setitem cfg fuel (Expr.comp n sf ps) ((sta + q.1 : Nat) : Int) ((sta + q.2.1 : Nat) : Int) q.2.2 with
+    | error e => rw [h1] at h; cases h
+    | ok c1 =>
+      rw [h1] at h
+      simp only [bind, Except.bind] at h
+      obtain ⟨ps1, rfl, hd1, hw1, _, _, _, hc1⟩ := ih.setitem n sf ps _ _ _ c1 hd hw (hL q List.mem_cons_self) h1
+      obtain ⟨ps', hr, hd', hw', hc'⟩ := ihl ps1 r hd1 hw1 (fun p hp => hL p (List.mem_cons_of_mem _ hp)) h
+      refine ⟨ps', hr, hd', hw', ?_⟩
+      intro x
+      rw [hc' x, hc1 x]
+      by_cases hq : sta + q.1 ≤ x ∧ x < sta + q.2.1
+      · have e1 : (∃ p ∈ q :: tl, sta + p.1 ≤ x ∧ x < sta + p.2.1) := ⟨q, List.mem_cons_self, hq⟩
+        have e2 : ((sta + q.1 : Nat) : Int) ≤ (x : Int) ∧ (x : Int) < ((sta + q.2.1 : Nat) : Int) := by omega
+        simp only [e1, e2, if_true]
+        split <;> rfl
+      · have e2 : ¬ (((sta + q.1 : Nat) : Int) ≤ (x : Int) ∧ (x : Int) < ((sta + q.2.1 : Nat) : Int)) := by omega
+        simp only [e2, if_false]
+        by_cases ht : ∃ p ∈ tl, sta + p.1 ≤ x ∧ x < sta + p.2.1
+        · obtain ⟨p, hp, hpx⟩ := ht
+          have e1 : (∃ p ∈ q :: tl, sta + p.1 ≤ x ∧ x < sta + p.2.1) := ⟨p, List.mem_cons_of_mem _ hp, hpx⟩
+          have e3 : (∃ p ∈ tl, sta + p.1 ≤ x ∧ x < sta + p.2.1) := ⟨p, hp, hpx⟩
+          simp only [e1, e3, if_true]
+        · have e1 : ¬ (∃ p ∈ q :: tl, sta + p.1 ≤ x ∧ x < sta + p.2.1) := by
+            rintro ⟨p, hp, hpx⟩
+            rcases List.mem_cons.mp hp with rfl | hp
+            · exact hq hpx
+            · exact ht ⟨p, hp, hpx⟩
+          simp only [e1, ht, if_false]
+
+theorem setitem_step (n : Nat) (sf : Bool) (ps : List Part) (a b : Int) (v r : Expr) (hd : Disj n ps)
+    (hw : ∀ p ∈ ps, WF p.2.2) (hv : WF v) (h : setitem cfg (fuel + 1) (.comp n sf ps) a b v = .ok r) :
+    ∃ ps', r = .comp n sf ps' ∧ Disj n ps' ∧ (∀ p ∈ ps', WF p.2.2) ∧ 0 ≤ a ∧ a < b ∧ b ≤ n ∧
+      ∀ x : Nat, cnt x ps' = if a ≤ (x : Int) ∧ (x : Int) < b then 1 else cnt x ps := by
+  rw [setitem.eq_def] at h; dsimp only at h
+  cases hcs : checkSlice n a b with
+  | error e => rw [hcs] at h; cases h
+  | ok u =>
+    rw [hcs] at h
+    simp only [bind, Except.bind] at h
+    obtain ⟨h0, hab, hbn⟩ := checkSlice_ok hcs
+    split at h
+    · cases h
+    · rename_i hsz
+      simp only [bne_iff_ne, ne_eq, Decidable.not_not] at hsz
+      simp only [pure, Except.pure] at h
+      split at h
+      · -- v is a comp: flatten
+        rename_i vs vsf vparts
+        simp only [WF] at hv
+        obtain ⟨hvpos, hvt, hvw⟩ := hv
+        simp only [size_comp] at hsz
+        obtain ⟨ps', hr, hd', hw', hc'⟩ := setitem_fold ih n sf a.toNat vparts ps r hd hw ((WFParts_iff _).mp hvw) (by simpa using h)
+        refine ⟨ps', hr, hd', hw', h0, hab, hbn, ?_⟩
+        intro x
+        rw [hc' x]
+        have key : (∃ p ∈ vparts, a.toNat + p.1 ≤ x ∧ x < a.toNat + p.2.1) ↔ (a ≤ (x : Int) ∧ (x : Int) < b) := by
+          constructor
+          · rintro ⟨p, hp, h1, h2⟩
+            have := hvt.1 p hp
+            omega
+          · intro hx
+            have hlt : x - a.toNat < vs := by omega
+            have hcnt := hvt.2 (x - a.toNat) hlt
+            have hsome := cover_isSome_of_cnt (b := x - a.toNat) (ps := vparts) (by show 1 ≤ cnt _ _; change cnt _ _ = 1 at hcnt; omega)
+            cases hcv : cover (x - a.toNat) vparts with
+            | none => rw [hcv] at hsome; cases hsome
+            | some p =>
+              obtain ⟨hm, h1, h2⟩ := cover_spec hcv
+              exact ⟨p, hm, by omega, by omega⟩
+        by_cases hx : (a ≤ (x : Int) ∧ (x : Int) < b)
+        · rw [if_pos (key.mpr hx), if_pos hx]
+        · rw [if_neg (mt key.mp hx), if_neg hx]
+      · -- a single part
+        cases hsp : setPart (fun y a b => getitem cfg fuel y (a : Int) (b : Int)) a.toNat b.toNat v ps with
+        | error e => rw [hsp] at h; simp only at h; cases h
+        | ok ps' =>
+          rw [hsp] at h
+          simp only at h
+          cases h
+          obtain ⟨r1, r2, r3⟩ := setPart_spec _ (giSpec_of_ih ih) n a.toNat b.toNat v ps ps' hd hw hv hsz (by omega) (by omega) hsp
+          refine ⟨ps', rfl, r1, r2, h0, hab, hbn, ?_⟩
+          intro x
+          rw [r3 x]
+          split_ifs <;> omega
+
+/-- the loop of `composer`: parts are laid down one after the other from position 0 -/
+theorem composer_fold (s : Nat) (sf : Bool) :
+    ∀ (L : List Expr) (ps : List Part) (pos : Nat) (c : Expr) (pos' : Nat), Disj s ps → (∀ p ∈ ps, WF p.2.2) →
+      (∀ x ∈ L, WF x) → (∀ x, cnt x ps = if x < pos then 1 else 0) →
+      L.foldlM (fun (st : Expr × Nat) (x : Expr) => do
+          let c ← setitem cfg fuel st.1 (st.2 : Int) ((st.2 + x.size : Nat) : Int) x
+          pure (c, st.2 + x.size)) (Expr.comp s sf ps, pos) = .ok (c, pos') →
+      ∃ ps', c = .comp s sf ps' ∧ Disj s ps' ∧ (∀ p ∈ ps', WF p.2.2) ∧ pos' = pos + L.foldl (fun a x => a + x.size) 0
+        ∧ (∀ x, cnt x ps' = if x < pos' then 1 else 0) ∧ (L ≠ [] → pos' ≤ s) := by
+  intro L
+  induction L with
+  | nil =>
+    intro ps pos c pos' hd hw _ hc h
+    simp only [List.foldlM_nil, pure, Except.pure] at h
+    cases h
+    exact ⟨ps, rfl, hd, hw, by simp, hc, by intro h; exact absurd rfl h⟩
+  | cons y tl ihl =>
+    intro ps pos c pos' hd hw hL hc h
+    rw [List.foldlM_cons] at h
+    simp only at h
+    cases h1 : setitem cfg fuel (Expr.comp s sf ps) (pos : Int) ((pos + y.size : Nat) : Int) y with
+    | error e => rw [h1] at h; cases h
+    | ok c1 =>
+      rw [h1] at h
+      simp only [bind, Except.bind, pure, Except.pure] at h
+      obtain ⟨ps1, rfl, hd1, hw1, _, _, hle, hc1⟩ := ih.setitem s sf ps _ _ _ c1 hd hw (hL y List.mem_cons_self) h1
+      have hc1' : ∀ x, cnt x ps1 = if x < pos + y.size then 1 else 0 := by
+        intro x
+        rw [hc1 x, hc x]
+        split_ifs <;> omega
+      obtain ⟨ps', hr, hd', hw', hp', hc', hle'⟩ := ihl ps1 (pos + y.size) c pos' hd1 hw1
+        (fun x hx => hL x (List.mem_cons_of_mem _ hx)) hc1' h
+      refine ⟨ps', hr, hd', hw', ?_, hc', ?_⟩
+      · rw [hp']; simp only [List.foldl_cons, Nat.zero_add]; rw [foldl_add_size tl y.size]; omega
+      · intro _
+        by_cases ht : tl = []
+        · subst ht; simp at hp'; omega
+        · exact hle' ht
+
+theorem composer_step (parts : List Expr) (hp : ∀ x ∈ parts, WF x) :
+    Post (parts.foldl (fun a x => a + x.size) 0) (composer cfg (fuel + 1) parts) := by
+  rw [composer.eq_def]; dsimp only
+  split
+  · exact Post_error _ _
+  · rename_i x
+    exact Post_ok (hp x List.mem_cons_self) (by simp)
+  · rename_i hne1 hne2
+    apply Post_bind; intro st hst
+    obtain ⟨c, pos'⟩ := st
+    have hne : parts ≠ [] := by intro h; exact hne1 h
+    obtain ⟨ps', rfl, hd', hw', hp', hc', hle'⟩ := composer_fold ih _ _ parts [] 0 c pos' (Disj_nil _)
+      (by intro p hp; cases hp) hp (by intro x; simp [cnt]) (by simpa using hst)
+    simp only [Nat.zero_add] at hp'
+    have hpos : 0 < parts.foldl (fun a x => a + x.size) 0 := by
+      cases parts with
+      | nil => exact absurd rfl hne
+      | cons y tl =>
+        simp only [List.foldl_cons, Nat.zero_add]
+        rw [foldl_add_size]
+        have := WF_size_pos y (hp y List.mem_cons_self)
+        omega
+    have htl : Tiles (parts.foldl (fun a x => a + x.size) 0) ps' := by
+      refine tiles_of_disj_cnt hd' ?_
+      intro x hx
+      rw [hc' x, hp']; simp [hx]
+    have := ih.simplify {} (Expr.comp (parts.foldl (fun a x => a + x.size) 0)
+        (match parts.getLast? with | some x => x.sf | none => false) ps')
+      (by simp only [WF]; exact ⟨hpos, htl, (WFParts_iff _).mpr hw'⟩)
+    exact this
+
+theorem extendExp_step (sign : Bool) (x : Expr) (size : Nat) (hx : WF x) :
+    Post (max size x.size) (extendExp cfg (fuel + 1) sign x size) := by
+  rw [extendExp.eq_def]; dsimp only
+  have hxp := WF_size_pos x hx
+  split
+  · rename_i h
+    exact Post_ok hx (by omega)
+  · rename_i h
+    apply Post_bind; intro sb hsb
+    have hs := ih.getitem x _ _ hx sb hsb
+    have hs1 : sb.size = 1 := by rw [hs.2]; omega
+    have hxt : 0 < size - x.size := by omega
+    have hxxw : WF (extFill sign sb (size - x.size)) ∧ (extFill sign sb (size - x.size)).size = size - x.size := by
+      unfold extFill
+      split
+      · simp only [WF, size_tst, size_mkCst']
+        exact ⟨⟨hxt, hs.1, WF_mkCst _ _ hxt, WF_mkCst _ _ hxt, hs1, trivial, trivial⟩, trivial⟩
+      · simp only [WF, size_cst]
+        exact ⟨⟨hxt, Nat.two_pow_pos _⟩, trivial⟩
+    have := ih.composer [x, extFill sign sb (size - x.size)]
+      (by intro y hy; simp at hy; rcases hy with rfl | rfl; exact hx; exact hxxw.1)
+    simp only [List.foldl_cons, List.foldl_nil, Nat.zero_add, hxxw.2] at this
+    have e : x.size + (size - x.size) = max size x.size := by omega
+    rw [e] at this
+    exact this
+
+theorem eqn1_step (o : Op) (r : Expr) (size : Nat) (sf : Bool) (prop : Nat) (hr : WF r) (hsz : size = r.size) :
+    Post size (eqn1 cfg (fuel + 1) o r size sf prop) := by
+  rw [eqn1.eq_def]; dsimp only
+  have hself : Post size (Except.ok (uop o r size sf prop)) :=
+    Post_ok (by simp only [WF]; exact ⟨hsz ▸ WF_size_pos r hr, hr, hsz⟩) rfl
+  split
+  · exact hsz ▸ ih.callUop o _ hr
+  · rename_i l s f
+    apply Post_bind; intro l' hl'
+    simp only [WF] at hr
+    simp only [size_vec] at hsz
+    have := mapM_spec (fun y => callUop cfg fuel o y) (fun y => WF y ∧ y.size = s) (fun y => WF y ∧ y.size = s)
+      (by intro y r' hy h; have := ih.callUop o y hy.1 r' h; exact ⟨this.1, by rw [this.2]; exact hy.2⟩)
+      l l' ((WFList_iff l s).mp hr.2.2) hl'
+    intro v hv
+    have := mkVec_spec l' s v hr.1 (by intro h; have h2 := this.2; rw [h] at h2; exact hr.2.1 (List.length_eq_zero_iff.mp h2.symm)) this.1 hv
+    exact hsz ▸ this
+  · rename_i ro rr rs rf rp
+    simp only [WF] at hr
+    simp only [size_uop] at hsz
+    split
+    · exact Post_ok hr.2.1 (by omega)
+    · have := ih.apiNeg rr hr.2.1
+      exact Post_of_eq this (by omega)
+    · exact hself
+  · rename_i ro rl rr rs rf rp
+    have hr' := (WF_op_iff _ _ _ _ _ _).mp hr
+    simp only [size_op] at hsz
+    split
+    · split
+      · rename_i x hx
+        obtain ⟨_, t2, t3, _, n2, n3⟩ := pm_types hx
+        apply Post_bind; intro l hl
+        have hlw := ih.apiNeg rl hr'.2.2.1 l hl
+        have := ih.api x l rr hlw.1 hr'.2.2.2.1 (by intro h; omega)
+        rw [resSize_type1 l t3 n3, hlw.2] at this
+        refine Post_of_eq this ?_
+        rw [hsz, hr'.2.2.2.2.1, resSize_type1 rl t2 n2]
+      · exact hself
+    · split
+      · rename_i hn
+        simp only [Bool.and_eq_true, beq_iff_eq] at hn
+        have h1 : size = 1 := by rw [hsz, hr'.2.2.2.2.1]; simp [resSize, hn.2]
+        have heq : rl.size = rr.size := hr'.2.2.2.2.2 (by omega)
+        subst h1
+        split
+        all_goals first
+          | exact hself
+          | (refine Post_of_eq (ih.api _ rl rr hr'.2.2.1 hr'.2.2.2.1 (fun _ => heq)) ?_; simp [resSize, Op.type])
+          | exact ih.helperCmp Op.geu rl rr hr'.2.2.1 hr'.2.2.2.1 heq rfl
+          | exact ih.helperCmp Op.ltu rl rr hr'.2.2.1 hr'.2.2.2.1 heq rfl
+      · exact hself
+  · exact hself
+
+theorem eqn2tail_step (opts : Opts) (o : Op) (l r : Expr) (size : Nat) (sf : Bool) (prop : Nat)
+    (hw : WF (.op o l r size sf prop)) : Post size (eqn2tail cfg (fuel + 1) opts o l r size sf prop) := by
+  rw [eqn2tail.eq_def]; dsimp only
+  have hw' := (WF_op_iff _ _ _ _ _ _).mp hw
+  obtain ⟨hpos, hp, hl, hr, hs, heq⟩ := hw'
+  have last : Post size
+      (if (l.render == r.render) = true then
+        if (o == Op.neq || o == Op.lt || o == Op.gt) = true then Except.ok bit0
+        else if (o == Op.eq || o == Op.le || o == Op.ge) = true then Except.ok bit1
+        else if (o == Op.sub || o == Op.xor) = true then Except.ok (cst 0 size false)
+        else if (o == Op.and || o == Op.or) = true then Except.ok l
+        else Except.ok (op o l r size sf prop)
+      else Except.ok (op o l r size sf prop)) := by
+    split
+    · split
+      · rename_i h
+        refine Post_ok WF_bit0 ?_
+        simp only [Bool.or_eq_true, beq_iff_eq] at h
+        rcases h with (rfl | rfl) | rfl <;> simp [hs, resSize, Op.type]
+      · split
+        · rename_i h
+          refine Post_ok WF_bit1 ?_
+          simp only [Bool.or_eq_true, beq_iff_eq] at h
+          rcases h with (rfl | rfl) | rfl <;> simp [hs, resSize, Op.type]
+        · split
+          · exact Post_ok (by simp only [WF]; exact ⟨hpos, Nat.two_pow_pos _⟩) rfl
+          · split
+            · rename_i h
+              refine Post_ok hl ?_
+              simp only [Bool.or_eq_true, beq_iff_eq] at h
+              rcases h with rfl | rfl <;> simp [hs, resSize, Op.type]
+            · exact Post_ok hw rfl
+    · exact Post_ok hw rfl
+  split
+  · rename_i ll ls lf
+    simp only [WF] at hl
+    apply Post_bind; intro xs hxs
+    have := mapM_spec (fun y => callOp cfg fuel o y r) (fun y => WF y ∧ y.size = ls) (fun y => WF y ∧ y.size = size)
+      (by
+        intro y r' hy h
+        have := ih.callOp o y r hy.1 hr (by intro h4; rw [hy.2]; exact heq (by omega)) r' h
+        refine ⟨this.1, ?_⟩
+        rw [this.2, hs]; exact resSize_congr o hy.2)
+      ll xs ((WFList_iff ll ls).mp hl.2.2) hxs
+    apply Post_bind; intro v hv
+    have hvs := mkVec_spec xs size v hpos (by intro h; have h2 := this.2; rw [h] at h2; exact hl.2.1 (List.length_eq_zero_iff.mp h2.symm)) this.1 hv
+    exact hvs.2 ▸ ih.simplify _ v hvs.1
+  · rename_i rl rs rf _
+    simp only [WF] at hr
+    apply Post_bind; intro xs hxs
+    have := mapM_spec (fun y => callOp cfg fuel o l y) (fun y => WF y ∧ y.size = rs) (fun y => WF y ∧ y.size = size)
+      (by
+        intro y r' hy h
+        have := ih.callOp o l y hl hy.1 (by intro h4; rw [hy.2]; exact heq (by omega)) r' h
+        exact ⟨this.1, by rw [this.2, hs]⟩)
+      rl xs ((WFList_iff rl rs).mp hr.2.2) hxs
+    apply Post_bind; intro v hv
+    have hvs := mkVec_spec xs size v hpos (by intro h; have h2 := this.2; rw [h] at h2; exact hr.2.1 (List.length_eq_zero_iff.mp h2.symm)) this.1 hv
+    exact hvs.2 ▸ ih.simplify _ v hvs.1
+  · exact last
+
+/-- a fold of `setitem`s whose values are computed on the way -/
+theorem setitem_foldS (n : Nat) (sf : Bool) (step : Expr → Part → R Expr) :
+    ∀ (L : List Part),
+      (∀ c p r, p ∈ L → step c p = .ok r → ∃ v, WF v ∧ setitem cfg fuel c (p.1 : Int) (p.2.1 : Int) v = .ok r) →
+      ∀ (ps : List Part) (r : Expr), Disj n ps → (∀ p ∈ ps, WF p.2.2) →
+      L.foldlM step (Expr.comp n sf ps) = .ok r →
+      ∃ ps', r = .comp n sf ps' ∧ Disj n ps' ∧ (∀ p ∈ ps', WF p.2.2) ∧
+        ∀ x, cnt x ps' = if (∃ p ∈ L, p.1 ≤ x ∧ x < p.2.1) then 1 else cnt x ps := by
+  intro L
+  induction L with
+  | nil =>
+    intro _ ps r hd hw h
+    simp only [List.foldlM_nil, pure, Except.pure] at h
+    cases h
+    exact ⟨ps, rfl, hd, hw, by intro x; simp⟩
+  | cons q tl ihl =>
+    intro hstep ps r hd hw h
+    rw [List.foldlM_cons] at h
+    cases h1 : step (Expr.comp n sf ps) q with
+    | error e => rw [h1] at h; cases h
+    | ok c1 =>
+      rw [h1] at h
+      simp only [bind, Except.bind] at h
+      obtain ⟨v, hv, hset⟩ := hstep _ q c1 List.mem_cons_self h1
+      obtain ⟨ps1, rfl, hd1, hw1, _, _, _, hc1⟩ := ih.setitem n sf ps _ _ _ c1 hd hw hv hset
+      obtain ⟨ps', hr, hd', hw', hc'⟩ := ihl (fun c p r hp => hstep c p r (List.mem_cons_of_mem _ hp)) ps1 r hd1 hw1 h
+      refine ⟨ps', hr, hd', hw', ?_⟩
+      intro x
+      rw [hc' x, hc1 x]
+      by_cases hq : q.1 ≤ x ∧ x < q.2.1
+      · have e1 : (∃ p ∈ q :: tl, p.1 ≤ x ∧ x < p.2.1) := ⟨q, List.mem_cons_self, hq⟩
+        have e2 : ((q.1 : Nat) : Int) ≤ (x : Int) ∧ (x : Int) < ((q.2.1 : Nat) : Int) := by omega
+        rw [if_pos e1, if_pos e2]
+        split <;> rfl
+      · have e2 : ¬ (((q.1 : Nat) : Int) ≤ (x : Int) ∧ (x : Int) < ((q.2.1 : Nat) : Int)) := by omega
+        rw [if_neg e2]
+        by_cases ht : ∃ p ∈ tl, p.1 ≤ x ∧ x < p.2.1
+        · obtain ⟨p, hp, hpx⟩ := ht
+          have e1 : (∃ p ∈ q :: tl, p.1 ≤ x ∧ x < p.2.1) := ⟨p, List.mem_cons_of_mem _ hp, hpx⟩
+          have e3 : (∃ p ∈ tl, p.1 ≤ x ∧ x < p.2.1) := ⟨p, hp, hpx⟩
+          rw [if_pos e1, if_pos e3]
+        · have e1 : ¬ (∃ p ∈ q :: tl, p.1 ≤ x ∧ x < p.2.1) := by
+            rintro ⟨p, hp, hpx⟩
+            rcases List.mem_cons.mp hp with rfl | hp
+            · exact hq hpx
+            · exact ht ⟨p, hp, hpx⟩
+          rw [if_neg e1, if_neg ht]
+
+theorem eqn2snd_step (opts : Opts) (o : Op) (l : Expr) (rv rs : Nat) (rf : Bool) (size : Nat) (sf : Bool) (prop : Nat)
+    (hw : WF (.op o l (.cst rv rs rf) size sf prop)) :
+    Post size (eqn2snd cfg (fuel + 1) opts o l rv rs rf size sf prop) := by
+  rw [eqn2snd.eq_def]; dsimp only
+  obtain ⟨hpos, hp, hl, hr, hs, heq⟩ := (WF_op_iff _ _ _ _ _ _).mp hw
+  have htail := ih.eqn2tail opts o l (.cst rv rs rf) size sf prop hw
+  -- the `== bit` rules
+  have bitrule : o.pm = o.pm → Post size
+      (if (rs == 1 && o == Op.eq) = true then
+          if cstValue rv rs rf = 1 then Except.ok l else apiNot cfg fuel l
+        else if (rs == 1 && o == Op.neq) = true then
+          if cstValue rv rs rf = 1 then apiNot cfg fuel l else Except.ok l
+        else eqn2tail cfg fuel opts o l (cst rv rs rf) size sf prop) := by
+    intro _
+    have hsize : ∀ o', (o' = Op.eq ∨ o' = Op.neq) → o = o' → size = l.size ∧ l.size = 1 → True := fun _ _ _ _ => trivial
+    split
+    · rename_i h
+      simp only [Bool.and_eq_true, beq_iff_eq] at h
+      obtain ⟨h1, rfl⟩ := h
+      have e1 : size = 1 := by rw [hs]; simp [resSize, Op.type]
+      have e2 : l.size = 1 := by have := heq (by simp [Op.type]); simp only [size_cst] at this; omega
+      split
+      · exact Post_ok hl (by omega)
+      · exact Post_of_eq (ih.apiNot l hl) (by omega)
+    · split
+      · rename_i h
+        simp only [Bool.and_eq_true, beq_iff_eq] at h
+        obtain ⟨h1, rfl⟩ := h
+        have e1 : size = 1 := by rw [hs]; simp [resSize, Op.type]
+        have e2 : l.size = 1 := by have := heq (by simp [Op.type]); simp only [size_cst] at this; omega
+        split
+        · exact Post_of_eq (ih.apiNot l hl) (by omega)
+        · exact Post_ok hl (by omega)
+      · exact htail
+  split
+  · -- l = op lo ll lr
+    rename_i lo ll lr ls lf lp
+    split
+    · rename_i x hx
+      obtain ⟨t1, t2, t3, n1, n2, n3⟩ := pm_types hx
+      split
+      · apply Post_bind; intro cc hcc
+        obtain ⟨_, _, hll, hlr, hls, hleq⟩ := (WF_op_iff _ _ _ _ _ _).mp hl
+        have hc := ih.api x lr (.cst rv rs rf) hlr hr (by intro h; omega) cc hcc
+        rw [resSize_type1 lr t3 n3] at hc
+        refine Post_pure ?_ rfl
+        rw [WF_op_iff]
+        rw [resSize_type1 _ t1 n1] at hs
+        rw [resSize_type1 _ t2 n2] at hls
+        simp only [size_op] at hs
+        refine ⟨hpos, by omega, hll, hc.1, ?_, ?_⟩
+        · rw [resSize_type1 _ t2 n2]; omega
+        · intro _; rw [hc.2]; exact hleq (by omega)
+      · exact Post_pure hw rfl
+    · exact bitrule rfl
+  · -- l = uop lo lr
+    rename_i lo lr ls lf lp
+    split
+    · rename_i x hx
+      obtain ⟨t1, t2, t3, n1, n2, n3⟩ := pm_types hx
+      split
+      · apply Post_bind; intro cc hcc
+        have hl' := hl
+        simp only [WF] at hl'
+        have hc := ih.api x lr (.cst rv rs rf) hl'.2.1 hr (by intro h; omega) cc hcc
+        rw [resSize_type1 lr t3 n3] at hc
+        refine Post_pure ?_ rfl
+        rw [WF_op_iff]
+        rw [resSize_type1 _ t1 n1] at hs
+        simp only [size_uop] at hs
+        refine ⟨hpos, by omega, hl, hc.1, ?_, ?_⟩
+        · rw [resSize_type1 _ t2 n2]; simp only [size_uop]; omega
+        · intro _; rw [hc.2]; simp only [size_uop]; omega
+      · exact Post_pure hw rfl
+    · exact bitrule rfl
+  · -- ptr
+    split
+    · exact Post_error _ _
+    · exact htail
+  · -- comp
+    rename_i lsize lsf lparts
+    split
+    · rename_i hop
+      simp only [Bool.or_eq_true, beq_iff_eq] at hop
+      have ht2 : o.type = 2 ∧ o ≠ Op.mul2 := by rcases hop with (rfl | rfl) | rfl <;> simp [Op.type]
+      have hl' := hl
+      simp only [WF] at hl'
+      obtain ⟨hlpos, hlt, hlw⟩ := hl'
+      have hlw' := (WFParts_iff _).mp hlw
+      have hsz : size = lsize := by rw [hs]; simp [resSize, ht2.1, ht2.2]
+      apply Post_bind; intro cc hcc
+      obtain ⟨ps', rfl, hd', hw', hc'⟩ := setitem_foldS ih lsize sf _ lparts (by
+          intro c p r hp hstep
+          cases h1 : getitem cfg fuel (cst rv rs rf) (p.1 : Int) (p.2.1 : Int) with
+          | error e => rw [h1] at hstep; cases hstep
+          | ok rp =>
+            rw [h1] at hstep
+            simp only [bind, Except.bind] at hstep
+            cases h2 : callOp cfg fuel o p.2.2 rp with
+            | error e => rw [h2] at hstep; cases hstep
+            | ok v =>
+              rw [h2] at hstep
+              have hrp := ih.getitem _ _ _ hr rp h1
+              have hv := ih.callOp o p.2.2 rp (hlw' p hp) hrp.1 (by intro h; omega) v h2
+              exact ⟨v, hv.1, hstep⟩)
+        [] cc (Disj_nil _) (by intro p hp; cases hp) hcc
+      have htl : Tiles lsize ps' := by
+        refine tiles_of_disj_cnt hd' ?_
+        intro x hx
+        rw [hc' x, if_pos ((tiles_exists hlt x).mpr hx)]
+      have := ih.simplify { bitslice := opts.bitslice } (Expr.comp lsize sf ps')
+        (by simp only [WF]; exact ⟨hlpos, htl, (WFParts_iff _).mpr hw'⟩)
+      exact Post_of_eq this (by simp only [size_comp]; omega)
+    · exact htail
+  · -- cst
+    exact Post_of_eq (ih.callOp o _ _ hl hr (by intro h; exact heq (by omega))) hs.symm
+  · exact htail
+
+/-- `c = comp(n); c[0:n] = cst(0,n); c[a:b] = piece; c.simplify()` — the mask / shift rules -/
+theorem zero_then_piece (n : Nat) (sf : Bool) (a b : Int) (piece c1 c2 y : Expr) (hn : 0 < n) (hp : WF piece)
+    (h1 : setitem cfg fuel (Expr.comp n sf []) 0 n (cst 0 n false) = .ok c1)
+    (h2 : setitem cfg fuel c1 a b piece = .ok c2)
+    (hy : simplify cfg fuel {} c2 = .ok y) : WF y ∧ y.size = n := by
+  obtain ⟨ps1, rfl, hd1, hw1, _, _, _, hc1⟩ := ih.setitem n sf [] 0 n (cst 0 n false) c1 (Disj_nil _)
+    (by intro p hp; cases hp) (by simp only [WF]; exact ⟨hn, Nat.two_pow_pos _⟩) h1
+  obtain ⟨ps2, rfl, hd2, hw2, _, _, _, hc2⟩ := ih.setitem n sf ps1 a b piece c2 hd1 hw1 hp h2
+  have htl : Tiles n ps2 := by
+    refine tiles_of_disj_cnt hd2 ?_
+    intro x hx
+    rw [hc2 x, hc1 x]
+    have : ((0 : Int) ≤ (x : Int) ∧ (x : Int) < (n : Int)) := by omega
+    rw [if_pos this]
+    split <;> rfl
+  exact ih.simplify {} _ (by simp only [WF]; exact ⟨hn, htl, (WFParts_iff _).mpr hw2⟩) y hy
+
+theorem eqn2cst_step (opts : Opts) (o : Op) (l : Expr) (rv rs : Nat) (rf : Bool) (size : Nat) (sf : Bool) (prop : Nat)
+    (hw : WF (.op o l (.cst rv rs rf) size sf prop)) :
+    PostO size (eqn2cst cfg (fuel + 1) opts o l rv rs rf size sf) := by
+  rw [eqn2cst.eq_def]; dsimp only
+  obtain ⟨hpos, hp, hl, hr, hs, heq⟩ := (WF_op_iff _ _ _ _ _ _).mp hw
+  have hlpos := WF_size_pos l hl
+  have szl : ∀ {o' : Op}, o = o' → o'.type ≠ 4 → o' ≠ Op.mul2 → l.size = size := by
+    intro o' h h4 hm; subst h; rw [hs]; simp [resSize, h4, hm]
+  have bits1 : ∀ (L : List Int) (bits : List Expr),
+      L.mapM (fun i => getitem cfg fuel l i (i + 1)) = .ok bits → (∀ y ∈ bits, WF y ∧ y.size = 1) ∧ bits.length = L.length := by
+    intro L bits h
+    exact mapM_spec _ (fun _ => True) (fun y => WF y ∧ y.size = 1)
+      (by intro i y _ hy; have := ih.getitem l i (i + 1) hl y hy; exact ⟨this.1, by rw [this.2]; omega⟩) L bits (fun _ _ => trivial) h
+  have compose : ∀ (bits : List Expr), (∀ y ∈ bits, WF y ∧ y.size = 1) → bits.length = size →
+      PostO size (do let c ← composer cfg fuel bits; pure (some (if c.isCmp = true then c.setSf sf else c))) := by
+    intro bits hb hlen
+    apply PostO_bind; intro c hc
+    have := ih.composer bits (fun y hy => (hb y hy).1) c hc
+    rw [foldl_size_ones bits (fun y hy => (hb y hy).2), hlen] at this
+    exact PostO_some (WF_setSf_if c sf this.1) (by rw [size_setSf_if]; exact this.2)
+  split
+  · -- value = 0
+    split
+    · rename_i h
+      refine PostO_some hl ?_
+      simp only [Bool.or_eq_true, beq_iff_eq] at h
+      rcases h with ((((((h | h) | h) | h) | h) | h) | h) | h <;> exact szl h (by simp [Op.type]) (by simp)
+    · split
+      · exact PostO_some (by simp only [WF]; exact ⟨hpos, Nat.two_pow_pos _⟩) rfl
+      · split
+        · rename_i h
+          simp only [Bool.and_eq_true, beq_iff_eq] at h
+          refine PostO_some WF_bit0 ?_
+          rw [hs, h.1]; simp [resSize, Op.type]
+        · split
+          · rename_i h
+            simp only [Bool.and_eq_true, beq_iff_eq] at h
+            refine PostO_some WF_bit1 ?_
+            rw [hs, h.1]; simp [resSize, Op.type]
+          · exact PostO_none _
+  · split
+    · rename_i h
+      refine PostO_some hl ?_
+      simp only [Bool.and_eq_true, decide_eq_true_eq, Bool.or_eq_true, beq_iff_eq] at h
+      rcases h.2 with h' | h' <;> exact szl h' (by simp [Op.type]) (by simp)
+    · split
+      · rename_i h
+        simp only [Bool.and_eq_true, decide_eq_true_eq, beq_iff_eq] at h
+        apply PostO_bind; intro y hy
+        have := ih.extendExp l.sf l size hl y hy
+        refine PostO_some this.1 ?_
+        rw [this.2, hs, h.2]; simp [resSize, Op.type]; omega
+      · split
+        · -- mask to slice
+          rename_i i1 i2 hm
+          have ho : o = Op.and := by
+            by_contra hne
+            have : (o == Op.and) = false := by simpa using hne
+            simp [this] at hm
+          have hsz := szl ho (by simp [Op.type]) (by simp)
+          apply PostO_bind; intro c1 h1
+          apply PostO_bind; intro piece hpc
+          apply PostO_bind; intro c2 h2
+          apply PostO_bind; intro y hy
+          have hpw := ih.getitem l _ _ hl piece hpc
+          have := zero_then_piece ih size sf _ _ piece c1 c2 y hpos hpw.1 h1 h2 hy
+          exact PostO_some this.1 this.2
+        · split
+          · -- bitslice of a logic operator
+            rename_i h
+            simp only [Bool.and_eq_true, Bool.or_eq_true, beq_iff_eq] at h
+            have hsz : l.size = size := by
+              rcases h.2 with (h' | h') | h' <;> exact szl h' (by simp [Op.type]) (by simp)
+            apply PostO_bind; intro bits hbits
+            have hb := mapM_spec (fun (i : Int) => do
+                let a ← getitem cfg fuel l i (i + 1)
+                let b ← getitem cfg fuel (cst rv rs rf) i (i + 1)
+                callOp cfg fuel o a b) (fun _ => True) (fun y => WF y ∧ y.size = 1)
+              (by
+                intro i y _ hy
+                cases ha : getitem cfg fuel l i (i + 1) with
+                | error e => rw [ha] at hy; cases hy
+                | ok a =>
+                  rw [ha] at hy
+                  simp only [bind, Except.bind] at hy
+                  cases hbb : getitem cfg fuel (cst rv rs rf) i (i + 1) with
+                  | error e => rw [hbb] at hy; cases hy
+                  | ok b =>
+                    rw [hbb] at hy
+                    simp only at hy
+                    have h1 := ih.getitem l i (i + 1) hl a ha
+                    have h2 := ih.getitem _ i (i + 1) hr b hbb
+                    have h3 := ih.callOp o a b h1.1 h2.1 (by intro _; rw [h1.2, h2.2]) y hy
+                    refine ⟨h3.1, ?_⟩
+                    rw [h3.2]
+                    have : a.size = 1 := by rw [h1.2]; omega
+                    rcases h.2 with (h' | h') | h' <;> subst h' <;> simp [resSize, Op.type, this])
+              (pyRange 0 size) bits (fun _ _ => trivial) hbits
+            exact compose bits hb.1 (by rw [hb.2, length_pyRange]; omega)
+          · split
+            · exact PostO_some (by simp only [WF]; exact ⟨hpos, Nat.two_pow_pos _⟩) rfl
+            · rename_i hge
+              simp only [Bool.and_eq_true, Bool.or_eq_true, beq_iff_eq, decide_eq_true_eq, not_and, not_le] at hge
+              split
+              · -- bitslice shl
+                rename_i h
+                simp only [Bool.and_eq_true, beq_iff_eq] at h
+                have hsz := szl h.2 (by simp [Op.type]) (by simp)
+                have hlt := hge (Or.inl h.2)
+                apply PostO_bind; intro bits hbits
+                have hb := bits1 _ bits hbits
+                refine compose (bit0s rv ++ bits) ?_ ?_
+                · intro y hy
+                  rcases List.mem_append.mp hy with hy | hy
+                  · simp only [bit0s, List.mem_replicate] at hy
+                    rw [hy.2]; exact ⟨WF_bit0, rfl⟩
+                  · exact hb.1 y hy
+                · rw [List.length_append, hb.2, length_pyRange]; simp [bit0s]; omega
+              · split
+                · rename_i h
+                  simp only [Bool.and_eq_true, beq_iff_eq] at h
+                  have hsz := szl h.2 (by simp [Op.type]) (by simp)
+                  have hlt := hge (Or.inr h.2)
+                  apply PostO_bind; intro bits hbits
+                  have hb := bits1 _ bits hbits
+                  refine compose (bits ++ bit0s rv) ?_ ?_
+                  · intro y hy
+                    rcases List.mem_append.mp hy with hy | hy
+                    · exact hb.1 y hy
+                    · simp only [bit0s, List.mem_replicate] at hy
+                      rw [hy.2]; exact ⟨WF_bit0, rfl⟩
+                  · rw [List.length_append, hb.2, length_pyRange]; simp [bit0s]; omega
+                · split
+                  · -- shl to comp
+                    rename_i h
+                    simp only [beq_iff_eq] at h
+                    have hsz := szl h (by simp [Op.type]) (by simp)
+                    apply PostO_bind; intro c1 h1
+                    apply PostO_bind; intro piece hpc
+                    apply PostO_bind; intro c2 h2
+                    apply PostO_bind; intro y hy
+                    have hpw := ih.getitem l _ _ hl piece hpc
+                    have := zero_then_piece ih l.size sf _ _ piece c1 c2 y hlpos hpw.1 h1 h2 hy
+                    exact PostO_some this.1 (by rw [this.2]; exact hsz)
+                  · split
+                    · rename_i h
+                      simp only [beq_iff_eq] at h
+                      have hsz := szl h (by simp [Op.type]) (by simp)
+                      apply PostO_bind; intro c1 h1
+                      apply PostO_bind; intro piece hpc
+                      apply PostO_bind; intro c2 h2
+                      apply PostO_bind; intro y hy
+                      have hpw := ih.getitem l _ _ hl piece hpc
+                      have := zero_then_piece ih l.size sf _ _ piece c1 c2 y hlpos hpw.1 h1 h2 hy
+                      exact PostO_some this.1 (by rw [this.2]; exact hsz)
+                    · exact PostO_none _
+
+/-- postcondition on `(operator, left, right)` triples -/
+def PostT (P : Op × Expr × Expr → Prop) (x : R (Op × Expr × Expr)) : Prop := ∀ t, x = .ok t → P t
+
+theorem normL_step (o : Op) (l r : Expr) (size : Nat) (sf : Bool) (prop : Nat)
+    (hw : WF (.op o l r size sf prop)) :
+    PostT (fun t => WF (.op t.1 t.2.1 t.2.2 size sf prop)) (normL cfg (fuel + 1) o l r) := by
+  rw [normL.eq_def]; dsimp only
+  have same : PostT (fun t => WF (.op t.1 t.2.1 t.2.2 size sf prop)) (pure (o, l, r)) := by
+    intro t ht; cases ht; exact hw
+  obtain ⟨hpos, hp, hl, hr, hs, heq⟩ := (WF_op_iff _ _ _ _ _ _).mp hw
+  split
+  · split
+    · split
+      · rename_i lo ll lr ls lf lp _ _ x hx
+        obtain ⟨t1, t2, t3, n1, n2, n3⟩ := pm_types hx
+        obtain ⟨_, _, hll, hlr, hls, hleq⟩ := (WF_op_iff _ _ _ _ _ _).mp hl
+        intro t ht
+        cases hc : callOp cfg fuel o ll r with
+        | error e => rw [hc] at ht; cases ht
+        | ok nl =>
+          rw [hc] at ht
+          simp only [bind, Except.bind, pure, Except.pure] at ht
+          cases ht
+          have hn := ih.callOp o ll r hll hr (by intro h; omega) nl hc
+          rw [resSize_type1 _ t1 n1] at hn hs
+          rw [resSize_type1 _ t2 n2] at hls
+          simp only [size_op] at hs
+          show WF (.op lo nl lr size sf prop)
+          rw [WF_op_iff]
+          refine ⟨hpos, by omega, hn.1, hlr, ?_, ?_⟩
+          · rw [resSize_type1 _ t2 n2]; omega
+          · intro _; rw [hn.2]; exact hleq (by omega)
+      · exact same
+    · exact same
+  · exact same
+
+theorem normR_step (o : Op) (l r : Expr) (size : Nat) (sf : Bool) (prop : Nat)
+    (hw : WF (.op o l r size sf prop)) :
+    PostT (fun t => WF (.op t.1 t.2.1 t.2.2 size sf prop)) (normR cfg (fuel + 1) o l r) := by
+  rw [normR.eq_def]; dsimp only
+  have same : PostT (fun t => WF (.op t.1 t.2.1 t.2.2 size sf prop)) (pure (o, l, r)) := by
+    intro t ht; cases ht; exact hw
+  obtain ⟨hpos, hp, hl, hr, hs, heq⟩ := (WF_op_iff _ _ _ _ _ _).mp hw
+  split
+  · split
+    · split
+      · rename_i ro rl rr rs rf rp _ _ x hx
+        obtain ⟨t1, t2, t3, n1, n2, n3⟩ := pm_types hx
+        obtain ⟨_, _, hrl, hrr, hrs, hreq⟩ := (WF_op_iff _ _ _ _ _ _).mp hr
+        intro t ht
+        cases hc : callOp cfg fuel o l rl with
+        | error e => rw [hc] at ht; cases ht
+        | ok nl =>
+          rw [hc] at ht
+          simp only [bind, Except.bind, pure, Except.pure] at ht
+          cases ht
+          have hn := ih.callOp o l rl hl hrl (by intro h; omega) nl hc
+          rw [resSize_type1 _ t1 n1] at hn hs
+          rw [resSize_type1 _ t2 n2] at hrs
+          have h1 := heq (by omega)
+          have h2 := hreq (by omega)
+          simp only [size_op] at h1
+          show WF (.op x nl rr size sf prop)
+          rw [WF_op_iff]
+          refine ⟨hpos, by omega, hn.1, hrr, ?_, ?_⟩
+          · rw [resSize_type1 _ t3 n3]; omega
+          · intro _; omega
+      · exact same
+    · exact same
+  · split
+    · split
+      · intro t ht; cases ht
+      · exact same
+    · exact same
+  · exact same
+
+omit ih in
+theorem WF_normNeg (o : Op) (l r : Expr) (size : Nat) (sf : Bool) (prop : Nat) (h1 : WF (.op o l r size sf prop)) :
+    WF (.op (normNeg o r).1 l (normNeg o r).2 size sf prop) := by
+  unfold normNeg
+  split
+  · rename_i ro rr rs rf rp
+    split
+    · rename_i hc
+      simp only [Bool.and_eq_true, beq_iff_eq] at hc
+      obtain ⟨rfl, rfl⟩ := hc
+      obtain ⟨hpos, hp, hl, hr, hs, heq⟩ := (WF_op_iff _ _ _ _ _ _).mp h1
+      simp only [WF] at hr
+      have h2 := heq (by simp [Op.type])
+      simp only [size_uop] at h2
+      show WF (.op Op.sub l rr size sf prop)
+      rw [WF_op_iff]
+      refine ⟨hpos, by simpa [Op.type] using hp, hl, hr.2.1, by simpa [resSize, Op.type] using hs, ?_⟩
+      intro _; omega
+    · exact h1
+  · exact h1
+
+theorem eqn2norm_step (o : Op) (l r : Expr) (size : Nat) (sf : Bool) (prop : Nat)
+    (hw : WF (.op o l r size sf prop)) (o' : Op) (l' r' : Expr)
+    (h : eqn2norm cfg (fuel + 1) o l r = .ok (o', l', r')) : WF (.op o' l' r' size sf prop) := by
+  rw [eqn2norm.eq_def] at h; dsimp only at h
+  cases h1 : normL cfg fuel o l r with
+  | error e => rw [h1] at h; cases h
+  | ok t =>
+    rw [h1] at h
+    simp only [bind, Except.bind] at h
+    have w1 := ih.normL o l r size sf prop hw t h1
+    have w2 := WF_normNeg t.1 t.2.1 t.2.2 size sf prop w1
+    exact ih.normR _ _ _ size sf prop w2 (o', l', r') h
+
+omit ih in
+theorem WF_cplx_top (c : Bool) (e : Expr) (h : WF e) :
+    WF (if c = true then mkTop e.size else e) ∧ (if c = true then mkTop e.size else e).size = e.size := by
+  split
+  · exact ⟨WF_mkTop (WF_size_pos e h), rfl⟩
+  · exact ⟨h, rfl⟩
+
+theorem eqn2_step (opts : Opts) (o : Op) (l r : Expr) (size : Nat) (sf : Bool) (prop : Nat)
+    (hw : WF (.op o l r size sf prop)) : Post size (eqn2 cfg (fuel + 1) opts o l r size sf prop) := by
+  rw [eqn2.eq_def]; dsimp only
+  obtain ⟨hpos, hp, hl, hr, hs, heq⟩ := (WF_op_iff _ _ _ _ _ _).mp hw
+  obtain ⟨hl1, hl2⟩ := WF_cplx_top (cfg.cplx l) l hl
+  obtain ⟨hr1, hr2⟩ := WF_cplx_top (cfg.cplx r) r hr
+  have hw' : WF (.op o (if cfg.cplx l = true then mkTop l.size else l) (if cfg.cplx r = true then mkTop r.size else r) size sf prop) := by
+    rw [WF_op_iff]
+    exact ⟨hpos, hp, hl1, hr1, by rw [resSize_congr o hl2]; exact hs, by intro h; rw [hl2, hr2]; exact heq h⟩
+  generalize (if cfg.cplx r = true then mkTop r.size else r) = r' at *
+  generalize (if cfg.cplx l = true then mkTop l.size else l) = l' at *
+  split
+  · exact Post_pure (WF_mkTop hpos) rfl
+  · apply Post_bind; intro t ht
+    obtain ⟨o1, l1, r1⟩ := t
+    have hw1 := ih.eqn2norm _ _ _ size sf prop hw' o1 l1 r1 ht
+    dsimp only
+    split
+    · rename_i rv rs rf
+      apply Post_bind; intro res hres
+      split
+      · rename_i y
+        have := ih.eqn2cst opts o1 l1 rv rs rf size sf prop hw1 y hres
+        exact Post_pure this.1 this.2
+      · exact ih.eqn2snd opts o1 l1 rv rs rf size sf prop hw1
+    · exact ih.eqn2tail opts o1 l1 r1 size sf prop hw1
 
 end steps
 
